@@ -945,6 +945,63 @@ func ruleC15(c *Ctx, r *Report) {
 			"a '$field' reference met as a value is stored as HashName(reference) under the flag",
 			"this walker never renames a '$field' reference it meets as a value: under --redactFieldNames such a reference becomes the generic placeholder instead of the pseudonym the same field has as a key")
 	}
+	// ... and no reference is let through unrenamed while the flag is on: every raw pass-through
+	// that is licensed as a '$field' reference (J4) or as a string in a FieldName position (J2)
+	// lies under "the field-name flag is off" wherever the walker has that flag
+	keptOrd := map[string]int{}
+	for _, s := range p.sinks(p.Zone) {
+		if !s.Raw || !(strings.HasPrefix(s.Just, "J4") || s.Just == "J2:tbl==FieldName&string") {
+			continue
+		}
+		hasFlag := false
+		for _, prm := range s.Fn.Params {
+			if flags[prm] {
+				hasFlag = true
+			}
+		}
+		if !hasFlag {
+			continue
+		}
+		flagOff := false
+		var split func(as []Atom, depth int) bool
+		split = func(as []Atom, depth int) bool {
+			for _, a := range as {
+				if a.Kind == "param" && !a.Pol {
+					return true
+				}
+			}
+			if depth >= 2 {
+				return false
+			}
+			// under a disjunction: every case must establish it
+			for i, a := range as {
+				if a.Kind != "or" || len(a.Or) < 2 {
+					continue
+				}
+				all := true
+				for _, d := range a.Or {
+					rest := append(append(append([]Atom{}, as[:i]...), as[i+1:]...), d)
+					rest = append(rest, d.And...)
+					if !split(rest, depth+1) {
+						all = false
+					}
+				}
+				if all {
+					return true
+				}
+			}
+			return false
+		}
+		flagOff = split(s.Atoms, 0)
+		what := "a '$field' reference"
+		if strings.HasPrefix(s.Just, "J2") {
+			what = "a field name in a FieldName position (a search path, an output field)"
+		}
+		keptOrd[s.Fn.Name()+s.Kind]++
+		r.Check(flagOff, "C15-R3", fmt.Sprintf("%s:reference-kept-only-without-the-flag(%s)#%d", s.Fn.Name(), s.Kind, keptOrd[s.Fn.Name()+s.Kind]), c.InstrPos(s.Instr),
+			what+" is passed through unchanged only where the field-name flag is off",
+			what+" is emitted unchanged although the field-name mode can be on here: the name stays in clear while the same field is renamed as a key, in the sort document and in the plan summary")
+	}
 	// a key that starts with '$' is an operator / extended-JSON wrapper, never a user field:
 	// every key rename is guarded by "does not start with '$'"
 	for _, call := range p.hashCallSites() {
@@ -986,7 +1043,7 @@ func ruleC15(c *Ctx, r *Report) {
 	// bounds): under the mode their keys must be renamed like the filter's
 	{
 		zs := p.zoneSets(cmdFn)
-		for _, k := range []string{"projection", "hint", "min", "max"} {
+		for _, k := range []string{"projection", "hint", "min", "max", "fields"} {
 			r.Check(len(zs[k]) > 0, "C15-R3", fmt.Sprintf("%s:field-name-zone(%s)", cmdFn.Name(), k), c.Pos(cmdFn.Pos()),
 				"cmd["+k+"] is walked under the field-name mode",
 				"cmd["+k+"] is never walked: the field names renamed in the filter, the sort document and the plan summary remain in clear as keys of "+k)
